@@ -455,7 +455,14 @@ def run_msgs(msgs, learned_a, start_a=1):
 
 def case_nsap(msgs, learned_a):
     """expected = dump after each frame; model = dump after the corresponding prefix of ops"""
-    out, hist, rig, _ = run_msgs(msgs, learned_a)
+    try:
+        out, hist, rig, _ = run_msgs(msgs, learned_a)
+    except RecursionError:
+        raise
+    except Exception as e:
+        # the node raised while handling a frame: the model (which cannot) will disagree
+        return Case('nsap-msgs', '[0]', [1, exc_code(e)], key=('nsap', learned_a, tuple(msgs)), nontrivial=True,
+                    desc={'op': 'nsap', 'learned_a': learned_a, 'msgs': [list(m) for m in msgs]})
     exp, segs, done = [], [], 0
     for n, d in out:
         exp += pack(d)
